@@ -398,7 +398,7 @@ inductive QOp where
   | iscontiguous (i : Nat) | iprange (i : Nat) | iterIpranges (i : Nat)
   | contains (i : Nat) (n : Net)
   | iter (i : Nat) | iterCidrs (i : Nat) | repr (i : Nat) | nonzero (i : Nat)
-deriving Repr, Inhabited
+deriving Repr, Inhabited, DecidableEq
 
 /-- what a query returns -/
 inductive QVal where
@@ -408,7 +408,7 @@ inductive QVal where
   | ranges (l : List VR)
   | addrs (l : List (Nat × Nat))
   | cidrs (l : List Net)
-deriving Repr, Inhabited
+deriving Repr, Inhabited, DecidableEq
 
 /-- the value (or exception) of a query on the current store; `maxint` = `sys.maxsize` -/
 def evalQ (maxint : Nat) (sets : Store) : QOp → R QVal
